@@ -58,6 +58,9 @@ struct RunState {
 	bool pfault_fired = false;      // an injected page-protection refusal has fired in this run
 	bool vm_tainted[MAXV] = {false}; // a hash call on this VM ended in an exception (injected allocation failure): its later results are not constrained
 	uint64_t sig0 = 0;              // signal dispositions at the start of the run
+	bool cold = false;              // see ops::Plan::cold
+	struct Deferred { int op; bool is_cache_check; uint64_t sum[2]; std::string vmf; bool env_nondefault; };
+	std::vector<Deferred> deferred; // comparisons with the reference model postponed to the end of a cold history
 };
 static RunState *g_rs = nullptr;
 static __thread seam::OpCtx *t_cur_ctx = nullptr; // context of the op in flight on this thread
@@ -69,6 +72,8 @@ static void viol(const std::string &cls, const std::string &sig, const std::stri
 	// After an injected mprotect refusal the unchanged library may legitimately crash or fail (it ignores the result of
 	// mprotect; no listed property covers that). Only what the properties state for every moment - no W+X page, MXCSR
 	// restored by a single-call hash that returns - is still judged; everything else becomes a note.
+	// a cold history triggers the library's one-time initialisations itself; what they allocate is not a leak of this history
+	if (g_rs->cold && cls.compare(0, 5, "LEAK_") == 0) v.cls = "COLD_START_" + cls;
 	if ((g_rs->pfault_fired || (t_cur_ctx && t_cur_ctx->pfired)) && cls != "MXCSR_CHANGED" && cls != "WX" && cls != "WX_KERNEL") v.cls = "AFTER_MPROTECT_FAULT_" + cls;
 	g_rs->rep->violations.push_back(v);
 	// TSan's choice of which racing pair to report depends on shadow-cell state left by earlier runs of the
@@ -541,7 +546,8 @@ static void exec_op(RunState &rs, int i) {
 		}
 		if (o.kind != FIRST) {
 			res.has_digest = true;
-			if (e.has_digest && !tainted && memcmp(res.digest, rs.expd[i].b, 32) != 0) {
+			if (rs.cold) { if (e.has_digest && !tainted) rs.deferred.push_back(RunState::Deferred{i, false, {0, 0}, vmf, o.env >= 0 && env != 0x1F80}); }
+			else if (e.has_digest && !tainted && memcmp(res.digest, rs.expd[i].b, 32) != 0) {
 				char d[200]; snprintf(d, sizeof d, "got=%s want=%s env=0x%04x", rt::hex(res.digest, 8).c_str(), rt::hex(rs.expd[i].b, 8).c_str(), env);
 				viol("DIGEST_MISMATCH", std::string(kind_name(o.kind)) + " vm=" + vmf + (e.v2 ? " v2" : " v1") + (o.env >= 0 && env != 0x1F80 ? " env=nondefault" : ""), d, i);
 			}
@@ -571,6 +577,7 @@ static void exec_op(RunState &rs, int i) {
 		if (!need(rs.C[o.c] != nullptr)) break;
 		uint64_t got[2], want[2]; std::string err;
 		model::checksum128(randomx_get_cache_memory(rs.C[o.c]), randomx::CacheSize, got);
+		if (rs.cold) { if (e.key >= 0) rs.deferred.push_back(RunState::Deferred{i, true, {got[0], got[1]}, "", false}); res.executed = true; break; }
 		if (e.key >= 0 && model::fresh_cache_checksum(P.keys[e.key], e.cacheflags, want, err)) {
 			if (got[0] != want[0] || got[1] != want[1]) viol("CACHE_CHECKSUM", "cache memory differs from a fresh cache of the same key flags=" + flagstr(e.cacheflags), "", i);
 			rs.rep->probes["cache_checksum_checked"]++;
@@ -658,7 +665,8 @@ Report execute(const Plan &plan_in, const Options &opt) {
 	// under the default environment - must not come before them; nothing is judged there anyway)
 	const bool is_warmup = opt.run_index == ~(uint64_t)0;
 	if (is_warmup) for (auto &e : rs.ann.expect) e.has_digest = false;
-	for (size_t i = 0; i < plan.ops.size(); ++i) {
+	rs.cold = plan.cold;
+	for (size_t i = 0; i < plan.ops.size() && !rs.cold; ++i) {
 		const Expect &e = rs.ann.expect[i];
 		if (!e.has_digest) continue;
 		if (e.key < 0) { rep.invalid = true; rep.invalid_reason = "model: key of op " + std::to_string(i) + " unknown"; return rep; }
@@ -739,6 +747,25 @@ Report execute(const Plan &plan_in, const Options &opt) {
 			viol("LEAK_AT_QUIESCENCE", "still_live=" + own, "blocks=" + std::to_string(L.blocks) + " bytes=" + std::to_string(L.bytes) + " maps=" + std::to_string(L.maps) + " map_bytes=" + std::to_string(L.map_bytes), (int)plan.ops.size());
 		}
 	}
+	// cold history: the comparisons with the reference model, now that the history is over
+	for (auto &df : rs.deferred) {
+		const Expect &e = rs.ann.expect[df.op];
+		if (e.key < 0) continue;
+		std::string err;
+		if (df.is_cache_check) {
+			uint64_t want[2];
+			if (model::fresh_cache_checksum(plan.keys[e.key], e.cacheflags, want, err)) {
+				if (want[0] != df.sum[0] || want[1] != df.sum[1]) viol("CACHE_CHECKSUM", "cache memory differs from a fresh cache of the same key flags=" + flagstr(e.cacheflags), "", df.op);
+				rep.probes["cache_checksum_checked"]++;
+			}
+		} else {
+			model::Digest want; bool nd = false;
+			if (!model::fresh_digest(plan.keys[e.key], plan.inputs[e.input], e.v2, e.vmflags, e.cacheflags, want, err, &nd)) continue;
+			if (memcmp(rep.results[df.op].digest, want.b, 32) != 0)
+				viol("DIGEST_MISMATCH", std::string(kind_name(plan.ops[df.op].kind)) + " vm=" + df.vmf + (e.v2 ? " v2" : " v1") + (df.env_nondefault ? " env=nondefault" : ""), "cold history", df.op);
+		}
+	}
+	if (rs.cold) rep.probes["cold_history"]++;
 	for (auto &a : seam::anomalies()) { Violation v; v.cls = a.cls; v.sig = a.sig; v.op_index = a.op_index; rep.violations.push_back(v); }
 	drain_tsan((int)plan.ops.size());
 #ifdef RXSIM_TSAN
